@@ -236,4 +236,15 @@ theorem normalize_eval_frag {ext : Bool} {e e' : Exp (Ext K)} (ha : frag ext e =
   have e2 : eval ρ fl = some v := by rw [Rooc.flattenF_eval ρ _ _ _ hf]; exact e1
   exact (Rooc.simplify_sound_aux ρ fl (logicOperands01_of_frag ext ρ fl h2.1) v e2).1
 
+/-- finite literals survive `normalize`. -/
+theorem finiteLits_flatten' {n : Nat} {e e' : Exp (Ext K)} (h : finiteLits e = true) (hf : flattenF n e = some e') :
+    finiteLits e' = true :=
+  flattenF_pres (P := fun e => finiteLits e = true) (R := fun _ => True)
+    ⟨fun op a b => by simp [finiteLits], fun e => by simp [finiteLits]⟩ n e e' h hf
+
+theorem finiteLits_normalize {e e' : Exp (Ext K)} (h : finiteLits e = true) (hn : normalizeExp e = some e') :
+    finiteLits e' = true := by
+  obtain ⟨fl, hf, rfl⟩ := normalizeExp_some hn
+  exact finiteLits_simplify _ (finiteLits_flatten' (finiteLits_simplify _ h) hf)
+
 end Rooc.LinP
